@@ -5,7 +5,7 @@ R1 identity-key completeness, R2 label flow, R3 sort key is order-only.
 import ast
 
 from sa import callgraph
-from sa.astutil import (call_name, calls_in, dotted, norm, walk_no_nested, last_attr,
+from sa.astutil import (anorm, call_name, calls_in, dotted, norm, walk_no_nested, last_attr,
                         names_in, format_fields, concat_str, enclosing_loops, ancestors,
                         str_consts)
 from sa.loader import AnalysisError
@@ -196,7 +196,9 @@ def run(ctx):
                 continue
             n_dec += 1
             missing = RESIDUE_KEY - comps
-            key = 'decision:%s.%s:%s' % (fid[0], fid[1], norm(node)[:80])
+            key = 'decision:%s.%s:%s' % (fid[0], fid[1], anorm(node, fn)[:80])
+            if missing:
+                key += ':missing=' + '+'.join(sorted(missing))
             ctx.ob('C06.R1', key, not missing,
                    'residue identity decision in %s.%s is built from %s%s; residues that differ '
                    'only in %s are treated as one residue' % (
@@ -209,18 +211,34 @@ def run(ctx):
     # equality of groups / iteratives is defined through labels
     for mname, qual in (('group', 'Group.__eq__'), ('iterative', 'Iterative.__eq__')):
         fn = prog.mod(mname).func(qual)
-        comps = set()
-        for node in walk_no_nested(fn):
-            if isinstance(node, ast.Compare):
-                for e in [node.left] + node.comparators:
-                    comps |= components(e, labels, fn)
-        comps.discard('<label>')
-        missing = RESIDUE_KEY - comps
-        ctx.ob('C06.R1', 'equality:%s.%s' % (mname, qual), not missing,
-               '%s decides equality from %s; two residues of the same type that differ only in %s '
-               'compare equal, and every `==`, `in`, `break at the first equal group` on groups '
-               'inherits this' % (qual, sorted(comps), sorted(missing)) if missing else
-               '%s decides equality from a complete residue key' % qual, prog.mod(mname), fn)
+        rets = [r for r in walk_no_nested(fn) if isinstance(r, ast.Return) and r.value is not None]
+        if not rets:
+            raise AnalysisError('C06: %s has no return' % qual)
+        for i, r in enumerate(rets, 1):
+            comps = set()
+            for node in ast.walk(r.value):
+                if isinstance(node, ast.Compare):
+                    for e in [node.left] + node.comparators:
+                        comps |= components(e, labels, fn)
+            from sa.astutil import fact_texts
+            hetero = not any(p and t == "self.atom.type == 'atom'" for t, p in fact_texts(r, fn))
+            if '<label>' in comps and hetero:
+                # the hetero label format carries residue name, atom name and chain
+                het = [c for c, _n, _m in labels.defs.get('label:hetero', []) if c]
+                comps = (comps - labels.comps('label')) | (set.intersection(*het) if het else set())
+                comps |= {c for node in ast.walk(r.value) if isinstance(node, ast.Attribute)
+                          and node.attr in ATTR_COMP for c in [ATTR_COMP[node.attr]]}
+            comps.discard('<label>')
+            missing = RESIDUE_KEY - comps
+            key = 'equality:%s.%s:%s' % (mname, qual, 'hetero' if hetero else 'protein')
+            if missing:
+                key += ':missing=' + '+'.join(sorted(missing))
+            ctx.ob('C06.R1', key, not missing,
+                   '%s (%s atoms) decides equality from %s; two residues that differ only in %s '
+                   'compare equal, and every `==`, `in`, `break at the first equal group` on '
+                   'groups inherits this' % (qual, 'hetero' if hetero else 'protein',
+                                             sorted(comps), sorted(missing)) if missing else
+                   '%s decides equality from a complete residue key' % qual, prog.mod(mname), r)
     # the label formats themselves
     for kind, items in sorted(labels.defs.items()):
         for comps, node, mod in items:
@@ -233,6 +251,8 @@ def run(ctx):
             from sa.astutil import enclosing_function
             ef = enclosing_function(node)
             key = 'label-format:%s:%s.%s' % (kind, mod.name, ef._qualname if ef else '?')
+            if missing:
+                key += ':missing=' + '+'.join(sorted(missing))
             dup = sum(1 for o in ctx.obligations if o['key'].split('#')[0] == key)
             if dup:
                 key += '#%d' % (dup + 1)
@@ -299,7 +319,7 @@ def run(ctx):
                     ok = isinstance(par, (ast.Return, ast.AugAssign)) or tg.endswith(('label', 'str_')) \
                         or 'label' in tg
                     how = 'copied / concatenated into text'
-            key = 'label-use:%s.%s:%s' % (fid[0], fid[1], norm(node._parent)[:60])
+            key = 'label-use:%s.%s:%s' % (fid[0], fid[1], anorm(node._parent, fn)[:60])
             ctx.ob('C06.R2', key, ok,
                    'label value used as %s' % (how or 'something other than text or an identity key'),
                    mod, node)
@@ -336,8 +356,12 @@ def run(ctx):
            'residue numbers and chain codes enter arithmetic only in the atom sort key (%s)'
            % sorted(set(arith)), cc, cc.func('ConformationContainer.sort_atoms_key'))
     sa = cc.func('ConformationContainer.sort_atoms')
+    renum = [n for n in walk_no_nested(sa) if isinstance(n, ast.Assign)
+             and isinstance(n.targets[0], ast.Attribute) and n.targets[0].attr == 'numb']
     ctx.ob('C06.R3', 'sorted-order:renumbering-only',
-           'self.atoms.sort(key=self.sort_atoms_key)' in norm(sa) and '.numb = i + 1' in norm(sa),
+           'self.atoms.sort(key=self.sort_atoms_key)' in norm(sa) and len(renum) == 1
+           and len([n for n in sa.body if not (isinstance(n, ast.Expr)
+                                               and isinstance(n.value, ast.Constant))]) == 2,
            'the sorted order is only used to renumber atoms (serials are inert: C07.R2)', cc, sa)
     ctx.assume('that relabelling leaves every float bit-identical is not decided (atom order '
                'inside a list can change summation order)')
